@@ -170,19 +170,27 @@ fn run_mismatch(_job: &Job) {
     mc::describe(|| json!({"op": "length mismatch on the seven pairwise metrics", "len_true": n1, "len_pred": n2, "pattern": pat, "rejected_bitmask_f64": r64}));
 }
 
-fn auc_both(labels: &[u8], scores: &[f64], with_f32: bool, origin: &dyn Fn() -> String) {
+/// Returns the library's (f64, f32) results, None outside the domain.
+fn auc_both(labels: &[u8], scores: &[f64], with_f32: bool, origin: &dyn Fn() -> String) -> Option<(f64, f64)> {
     let n = labels.len();
     let pos = labels.iter().filter(|l| **l == 1).count();
     if pos == 0 || pos == n {
         mc::count("auc_single_class_outside_domain");
-        return;
+        return None;
     }
     let v = auc_case::<f64>(labels, scores, origin);
     let w = if with_f32 { auc_case::<f32>(labels, scores, origin) } else { 0.0 };
-    match tie_class(scores) {
+    let (tc, near) = tie_info(scores, f64::EPSILON);
+    match tc {
         TieClass::Constant => mc::count("auc_constant_scores"),
         TieClass::Tied => mc::count("auc_tied_scores"),
         TieClass::Distinct => mc::count("auc_distinct_scores"),
+    }
+    if near {
+        mc::count("auc_different_scores_closer_than_epsilon");
+        if tc == TieClass::Tied {
+            mc::count("auc_equal_and_nearly_equal_scores_together");
+        }
     }
     if n >= 8 {
         mc::count("auc_quicksort_partition_path");
@@ -193,15 +201,63 @@ fn auc_both(labels: &[u8], scores: &[f64], with_f32: bool, origin: &dyn Fn() -> 
     mc::nontrivial();
     mc::outcome(mc::hash::h_f64s(&[v, w]));
     mc::describe(|| json!({"op": "roc_auc_score", "y_true": labels, "scores": scores, "library": v}));
+    Some((v, w))
+}
+
+/// Round 2 — nearly-equal score alphabets: {b, next(b), next(next(b)), 0.3} in f64 (id 2) and the
+/// same construction in f32 (id 3; the values are exactly representable in both types). `next` is the
+/// neighbouring floating-point number (upwards or downwards, by seed). Seed 0: b = 0.7, upwards.
+const SEED_NEAR: [(f64, i64); 8] = [(0.7, 1), (0.6, 1), (0.9, -1), (1.0, -1), (0.55, 1), (0.51, -1), (0.75, 1), (0.999, -1)];
+
+fn near_alpha(id: usize, seed: u64) -> Vec<f64> {
+    let (b, d) = SEED_NEAR[(seed % 8) as usize];
+    if id == 2 {
+        vec![b, step_f64(b, d), step_f64(b, 2 * d), 0.3]
+    } else {
+        vec![b as f32 as f64, step_f32(b as f32, d), step_f32(b as f32, 2 * d), 0.3f32 as f64]
+    }
+}
+
+/// Round 2 — multipliers applied to a whole score alphabet: scores are only compared, so a tiny scale
+/// must still rank different values as different (1e-17) and an exact one (2^-60) must not change the
+/// result at all.
+const SCORE_MULS: [f64; 3] = [1.0, 1e-17, TWO_M60];
+const SCORE_MUL_NAMES: [&str; 3] = ["1", "1e-17", "2^-60"];
+
+fn apply_mul(job: &Job, labels: &[u8], base: &[f64], with_f32: bool) {
+    let mul = job.params["mul"].as_u64().unwrap_or(0) as usize;
+    if mul == 0 {
+        auc_both(labels, base, with_f32, &String::new);
+        return;
+    }
+    let scaled: Vec<f64> = base.iter().map(|x| x * SCORE_MULS[mul]).collect();
+    let origin = || format!(" [scores = {} * {}]", show(base), SCORE_MUL_NAMES[mul]);
+    if let Some((v, w)) = auc_both(labels, &scaled, with_f32, &origin) {
+        mc::count("auc_tiny_scaled_scores");
+        if mul == 2 {
+            auc_scale_invariance::<f64>(labels, base, &scaled, v, SCORE_MUL_NAMES[mul]);
+            if with_f32 {
+                auc_scale_invariance::<f32>(labels, base, &scaled, w, SCORE_MUL_NAMES[mul]);
+            }
+        }
+    }
 }
 
 fn run_auc(job: &Job) {
     let n = job.u("n");
-    let alpha = score_alpha(job.u("alpha"), job.params["seed"].as_u64().unwrap_or(0));
+    let seed = job.params["seed"].as_u64().unwrap_or(0);
+    let aid = job.u("alpha");
+    let alpha = if aid >= 2 { near_alpha(aid, seed) } else { score_alpha(aid, seed) };
     let mut ch = Chs::new(job);
     let scores: Vec<f64> = (0..n).map(|_| alpha[ch.next(alpha.len())]).collect();
     let labels: Vec<u8> = (0..n).map(|_| ch.next(2) as u8).collect();
-    auc_both(&labels, &scores, job.b("f32"), &String::new);
+    if aid >= 2 {
+        if auc_both(&labels, &scores, job.b("f32"), &String::new).is_some() {
+            mc::count(if aid == 2 { "auc_nearly_equal_alphabet_f64" } else { "auc_nearly_equal_alphabet_f32" });
+        }
+    } else {
+        apply_mul(job, &labels, &scores, job.b("f32"));
+    }
 }
 
 fn run_aucperm(job: &Job) {
@@ -219,19 +275,24 @@ fn run_aucperm(job: &Job) {
     } else {
         (0..n).map(|_| ch.next(2) as u8).collect()
     };
-    auc_both(&labels, &scores, job.b("f32"), &String::new);
+    apply_mul(job, &labels, &scores, job.b("f32"));
 }
 
 fn run_aucs(job: &Job) {
     let n = job.u("n");
     let fam = mc::choose(N_SCORE_FAMILIES);
-    let tr = mc::choose(N_SCORE_TRANSFORMS);
+    // transforms [tr0, tr0+ntr): the round-1 jobs keep the first four, the round-2 jobs take the rest
+    let tr0 = job.params["tr0"].as_u64().unwrap_or(0) as usize;
+    let ntr = job.params["ntr"].as_u64().unwrap_or(4) as usize;
+    let tr = tr0 + mc::choose(ntr);
     let kind = mc::choose(N_LABEL_KINDS);
     let param = mc::choose(label_params(kind, n));
     let scores: Vec<f64> = (0..n).map(|i| score_transform(tr, n, score_family(fam, n, i))).collect();
     let labels = label_family(kind, param, &scores);
     let origin = || format!(" [n={} scores: family {} transform {}; labels: {} param {}]", n, SCORE_FAMILY_NAMES[fam], SCORE_TRANSFORM_NAMES[tr], LABEL_KIND_NAMES[kind], param);
-    auc_both(&labels, &scores, true, &origin);
+    if auc_both(&labels, &scores, true, &origin).is_some() && tr >= 4 {
+        mc::count("auc_structured_tiny_or_nearly_equal");
+    }
     mc::describe(|| json!({"n": n, "score_family": SCORE_FAMILY_NAMES[fam], "score_transform": SCORE_TRANSFORM_NAMES[tr], "label_family": LABEL_KIND_NAMES[kind], "label_param": param}));
 }
 
@@ -264,6 +325,48 @@ fn run_regs(job: &Job) {
     mc::nontrivial();
     mc::outcome(mc::hash::mix(mc::hash::h_f64s(&o64), mc::hash::h_f64s(&o32)));
     mc::describe(|| json!({"op": "mse/mae/r2 structured", "n": n, "truth": TRUTH_FAMILY_NAMES[ft], "prediction": PRED_FAMILY_NAMES[fp], "scale": SCALE_NAMES[sc], "library_f64": {"mse": format!("{}", o64[0]), "mae": format!("{}", o64[1]), "r2": format!("{}", o64[2])}}));
+}
+
+/// Round 2 — small spread around an offset: targets c + k*h. (c, h) by configuration; the seed moves
+/// the offset. Configuration 0 is the f64 case (ss_tot ~ 1e-18 < f64 epsilon), configuration 1 the
+/// f32 case (h = 2^-12, ss_tot ~ 6e-8 < f32 epsilon; with h = 1e-9 all f32 targets collapse to c).
+/// Configuration 2 (h = 1.3e-9) is configuration 0 without its arithmetic luck: 1e-9 is within 1e-7
+/// relative of 1125900 * 2^-50 and 1125900 = 2^2 3^3 5^2 417, so around c = 5 the sums and means of
+/// the 1e-9 family are mostly exact; with 1.3e-9 the computed mean is rounded.
+const OFFSET_STEPS: [f64; 3] = [1e-9, 0.000244140625, 1.3e-9];
+const OFFSET_STEP_NAMES: [&str; 3] = ["1e-9", "2^-12", "1.3e-9"];
+const SEED_OFFSET: [f64; 8] = [5.0, 3.0, -5.0, 7.0, 6.0, -3.0, 4.5, -6.25];
+
+fn run_regoff(job: &Job) {
+    let n = job.u("n");
+    let c = SEED_OFFSET[(job.params["seed"].as_u64().unwrap_or(0) % 8) as usize];
+    let h = OFFSET_STEPS[job.u("step")];
+    let mut ch = Chs::new(job);
+    let a: Vec<i64> = (0..n).map(|_| REG[ch.next(4)]).collect();
+    let b: Vec<i64> = (0..n).map(|_| REG[ch.next(4)]).collect();
+    let o64 = regression_offset_case::<f64>(&a, &b, c, h, &String::new);
+    let o32 = regression_offset_case::<f32>(&a, &b, c, h, &String::new);
+    mc::count("regression_offset_pairs");
+    mc::nontrivial();
+    mc::outcome(mc::hash::mix(mc::hash::h_f64s(&o64), mc::hash::h_f64s(&o32)));
+    mc::describe(|| json!({"op": "mse/mae/r2 around an offset", "k_true": a, "k_pred": b, "offset": c, "step": h, "library_f64": {"mse": format!("{:e}", o64[0]), "mae": format!("{:e}", o64[1]), "r2": format!("{}", o64[2])}}));
+}
+
+fn run_regsoff(job: &Job) {
+    let n = job.u("n");
+    let c = SEED_OFFSET[(job.params["seed"].as_u64().unwrap_or(0) % 8) as usize];
+    let ft = mc::choose(N_TRUTH_FAMILIES);
+    let fp = mc::choose(N_PRED_FAMILIES);
+    let st = mc::choose(OFFSET_STEPS.len());
+    let a: Vec<i64> = (0..n).map(|i| truth_family(ft, n, i)).collect();
+    let b: Vec<i64> = (0..n).map(|i| pred_family(fp, &a, i)).collect();
+    let origin = || format!(" [n={} truth family '{}', prediction family '{}', offset {} step {}]", n, TRUTH_FAMILY_NAMES[ft], PRED_FAMILY_NAMES[fp], c, OFFSET_STEP_NAMES[st]);
+    let o64 = regression_offset_case::<f64>(&a, &b, c, OFFSET_STEPS[st], &origin);
+    let o32 = regression_offset_case::<f32>(&a, &b, c, OFFSET_STEPS[st], &origin);
+    mc::count("regression_offset_structured");
+    mc::nontrivial();
+    mc::outcome(mc::hash::mix(mc::hash::h_f64s(&o64), mc::hash::h_f64s(&o32)));
+    mc::describe(|| json!({"op": "mse/mae/r2 structured around an offset", "n": n, "truth": TRUTH_FAMILY_NAMES[ft], "prediction": PRED_FAMILY_NAMES[fp], "offset": c, "step": OFFSET_STEP_NAMES[st], "library_f64": {"mse": format!("{:e}", o64[0]), "mae": format!("{:e}", o64[1]), "r2": format!("{}", o64[2])}}));
 }
 
 const RENAME_PAIRS: [(usize, usize); 2] = [(1, 2), (3, 1)];
@@ -426,6 +529,16 @@ impl Harness for C15 {
         for n in 1..=200usize {
             jobs.push(Job::new(format!("regs-n{}", n), json!({"kind": "regs", "n": n})));
         }
+        // round 2: small spread around an offset (targets c + k*h), exact reference on the actual floats
+        let off_max = if t { 6 } else { 4 };
+        for n in 1..=off_max {
+            for st in 0..OFFSET_STEPS.len() {
+                push_split(&mut jobs, &format!("regoff-n{}-h{}", n, OFFSET_STEP_NAMES[st]), json!({"kind": "regoff", "n": n, "step": st, "seed": seed}), &vec![4; 2 * n], cap);
+            }
+        }
+        for n in 1..=200usize {
+            jobs.push(Job::new(format!("regsoff-n{}", n), json!({"kind": "regsoff", "n": n, "seed": seed})));
+        }
 
         // ---- cluster scores: every pair of labellings
         let hcv_plan: &[(usize, usize)] = if t { &[(2, 12), (3, 8), (4, 6), (5, 5)] } else { &[(2, 8), (3, 6), (4, 4)] };
@@ -512,10 +625,36 @@ impl Harness for C15 {
             radices.push(2 * n);
             push_split(&mut jobs, &format!("auc-perm1-n{}", n), json!({"kind": "aucperm", "n": n, "seed": seed, "f32": false, "single": true}), &radices, cap);
         }
+        // round 2: nearly-equal alphabets (f64 and f32 construction), every score vector x label vector
+        let near_max = if t { 8 } else { 6 };
+        for n in 2..=near_max {
+            for (aid, tag) in [(2, "f64"), (3, "f32")] {
+                push_split(&mut jobs, &format!("auc-near{}-n{}", tag, n), json!({"kind": "auc", "n": n, "alpha": aid, "seed": seed, "f32": true}), &[vec![4; n], vec![2; n]].concat(), cap);
+            }
+        }
+        // round 2: the existing alphabets and the distinct permutations multiplied by 1e-17 and by 2^-60
+        let tiny_max = if t { 8 } else { 6 };
+        let tiny_q4_max = if t { 8 } else { 5 };
+        for n in 2..=tiny_max {
+            for mul in 1..SCORE_MULS.len() {
+                if n <= tiny_q4_max {
+                    push_split(&mut jobs, &format!("auc-q4x{}-n{}", SCORE_MUL_NAMES[mul], n), json!({"kind": "auc", "n": n, "alpha": 0, "seed": seed, "f32": true, "mul": mul}), &[vec![4; n], vec![2; n]].concat(), cap);
+                }
+                push_split(&mut jobs, &format!("auc-t3x{}-n{}", SCORE_MUL_NAMES[mul], n), json!({"kind": "auc", "n": n, "alpha": 1, "seed": seed, "f32": true, "mul": mul}), &[vec![3; n], vec![2; n]].concat(), cap);
+                let mut radices: Vec<usize> = (0..n).map(|i| n - i).collect();
+                radices.extend(vec![2; n]);
+                push_split(&mut jobs, &format!("auc-permx{}-n{}", SCORE_MUL_NAMES[mul], n), json!({"kind": "aucperm", "n": n, "seed": seed, "f32": true, "mul": mul}), &radices, cap);
+            }
+        }
         // structured families up to n = 200
         let aucs_ns: Vec<usize> = if t { (2..=200).collect() } else { (2..=40).chain([63, 64, 65, 100, 128, 200]).collect() };
         for n in &aucs_ns {
             jobs.push(Job::new(format!("aucs-n{}", n), json!({"kind": "aucs", "n": n})));
+        }
+        // round 2: the same structured families under the four tiny / nearly-equal transforms
+        let aucs2_ns: Vec<usize> = if t { (2..=200).collect() } else { (2..=40).chain([63, 64, 65, 100]).collect() };
+        for n in &aucs2_ns {
+            jobs.push(Job::new(format!("aucs2-n{}", n), json!({"kind": "aucs", "n": n, "tr0": 4, "ntr": N_SCORE_TRANSFORMS - 4})));
         }
 
         Plan {
@@ -539,6 +678,21 @@ impl Harness for C15 {
                 ("auc_distinct_scores", 500_000),
                 ("auc_quicksort_partition_path", 1_000_000),
                 ("auc_single_positive_or_negative", 100_000),
+                // round 2: nearly-equal / tiny scores, small scale and small spread around an offset
+                ("auc_nearly_equal_alphabet_f64", 250_000),
+                ("auc_nearly_equal_alphabet_f32", 250_000),
+                ("auc_different_scores_closer_than_epsilon", 400_000),
+                ("auc_equal_and_nearly_equal_scores_together", 300_000),
+                ("auc_tiny_scaled_scores", 200_000),
+                ("auc_structured_tiny_or_nearly_equal", 150_000),
+                ("auc_power_of_two_scaling_compared", 200_000),
+                ("regression_offset_pairs", 200_000),
+                ("regression_offset_structured", 40_000),
+                ("r2_offset_ss_tot_below_epsilon_f64", 120_000),
+                ("r2_offset_ss_tot_below_epsilon_f32", 10_000),
+                ("r2_offset_ss_tot_below_epsilon_times_mean_square", 200_000),
+                ("r2_ss_tot_below_epsilon_f64", 250_000),
+                ("r2_ss_tot_below_epsilon_f32", 240_000),
                 ("regression_pairs", 300_000),
                 ("regression_structured", 60_000),
                 ("r2_negative", 10_000),
@@ -560,9 +714,11 @@ impl Harness for C15 {
                 "accuracy_multiclass": format!("every pair over 3 label values, length 1..{}", if t { 7 } else { 5 }),
                 "length_mismatch": format!("every ordered pair of different lengths from {:?} x 3 fill patterns x 7 pairwise metrics x f64/f32", MISMATCH_LENGTHS),
                 "auc": format!("every (score vector, label vector with both classes): scores over {{0,1/4,1/2,1}} n=2..{}; over {{0,1,2}} n=8..{}; every permutation of n distinct scores n=2..{} x every label vector, and n={}..{} x every label vector with exactly one positive or one negative; structured families (16 score families x 4 transforms x 7 label families with all parameters) for n in {}", q4_max, t3_max, perm_max, perm_max + 1, single_max, summarize(&aucs_ns)),
-                "regression": format!("mse, mae, r2, f64 and f32: every pair over {{0,1,-2,3}}^n, n=1..{} x scales {:?}{}; structured families (7 truth x 10 prediction x 5 scales) for every n=1..200", reg_max, SCALE_NAMES, if t { "" } else { " (+ n=5 at scale 1)" }),
+                "auc_round2_nearly_equal_and_tiny_scores": format!("(oracle: the same exact pair counting on the actual values, a tie only for EQUAL scores; f64 and f32) every score vector over the nearly-equal alphabet {:?} (f64 neighbours) and over {:?} (f32 neighbours, exactly representable in both types) x every label vector with both classes, n=2..{}; the alphabet {{0,1/4,1/2,1}} (n=2..{}), the alphabet {{0,1,2}} and every permutation of n distinct scores (n=2..{}) multiplied by 1e-17 and by 2^-60 x every label vector (for 2^-60 additionally: result bit-identical to the unscaled one); structured families: 4 new transforms (1e-17*v, 2^-60*v, 0.7 moved by v units in the last place in f64 / in f32) x 16 score families x 7 label families with all parameters for n in {}", near_alpha(2, seed), near_alpha(3, seed), near_max, tiny_q4_max, tiny_max, summarize(&aucs2_ns)),
+                "regression_round2_small_scale_and_offset": format!("scales 2^-30 and 2^-13 added to both regression families (total sum of squares below the f64 / f32 machine epsilon, together with the existing 2^-40 and 1e-6); targets c + k*h and predictions c + k'*h with c = {}, h in {:?}: every pair (k, k') over {{0,1,-2,3}}^n, n=1..{}, and the 7 truth x 10 prediction structured families for every n=1..200; reference = the definitions evaluated exactly (i128, common power-of-two unit) on the floating-point values the library receives; r2 tolerance (1+q)(16(n+4)eps + 8 n^3 eps^2 max|y|^2/ss_tot), mse/mae 4(n+4)eps relative", SEED_OFFSET[(seed % 8) as usize], OFFSET_STEP_NAMES, off_max),
+                "regression": format!("mse, mae, r2, f64 and f32: every pair over {{0,1,-2,3}}^n, n=1..{} x scales {:?}{}; structured families (7 truth x 10 prediction x 7 scales) for every n=1..200", reg_max, SCALE_NAMES, if t { "" } else { " (+ n=5 at scale 1)" }),
                 "cluster_scores": format!("every pair of labellings over k values, (k, n<=): {:?}; every a x b contingency table over a cell alphabet x 3 sample orders: {:?}; product/identical/refinement/coarsening/near-identical layouts for every 1<=a,b<=8 x 4x4 weight families x multipliers {:?} x 3 orders, n<={}; every case also with exchanged arguments and under label renamings {:?}", hcv_plan, tabs, PROD_MULT, nmax, RENAMINGS.iter().map(|r| r.0).collect::<Vec<_>>()),
-                "seed_variant": {"score_affine": SEED_SCORE[(seed % 8) as usize], "regression_shift": SEED_REG_SHIFT[(seed % 8) as usize], "label_offset": SEED_LABEL_OFFSET[(seed % 8) as usize]},
+                "seed_variant": {"nearly_equal_base_and_direction": SEED_NEAR[(seed % 8) as usize], "regression_offset": SEED_OFFSET[(seed % 8) as usize], "score_affine": SEED_SCORE[(seed % 8) as usize], "regression_shift": SEED_REG_SHIFT[(seed % 8) as usize], "label_offset": SEED_LABEL_OFFSET[(seed % 8) as usize]},
             }),
         }
     }
@@ -578,6 +734,8 @@ impl Harness for C15 {
             "aucs" => run_aucs(job),
             "reg" => run_reg(job),
             "regs" => run_regs(job),
+            "regoff" => run_regoff(job),
+            "regsoff" => run_regsoff(job),
             "hcv" => run_hcv(job),
             "tab" => run_tab(job),
             "hcvlen" => run_hcvlen(job),
